@@ -125,6 +125,7 @@ def correspond(ctx, scale):
     import torch
     from vlib import impl
     rng = ctx.rng
+    vqrec.PERMUTE_VIEWS = False      # the paired runs are compared bit for bit; memory layouts have their own tolerant check (6b)
     failures, samples, cases, meta = [], [], [], []
     evaluations = nontrivial = 0
     dist = {'pairs': 0, 'steps': 0, 'padded_positions_checked': 0, 'compact_equivalence': 0, 'model_cases': 0, 'lens_form': 0}
